@@ -69,6 +69,11 @@ def _number(spec):
     return spec
 
 
+def _refirable(spec):
+    """roots whose own handlers never stop() them (a stopped event object stays stopped; what firing it again means is not stated)"""
+    return bool(spec.get('refire')) and not any(h['kind'] == 'stop' for es in spec['roots'] for h in es['handlers'])
+
+
 def _ev_strategy(depth, root=False):
     def handler_s(children, child=None):
         return st.fixed_dictionaries({
@@ -99,7 +104,7 @@ class C05(Prop):
     id = 'C05'
     rule = ('forests of events: 1-3 roots (mostly complete=True), handlers (plain / raising / stop() / generator / raising '
             'generator) firing children at start and from later generator steps (fan-out<=2 per site, depth<=3/4), nested '
-            'complete-requesting descendants, complete_channels, descendants cancelled right after being fired, generator steps that pause with sleep(0) or call() an event; plus enumerated chains of 40..1500 (thorough 4000) links; under '
+            'complete-requesting descendants, complete_channels, descendants cancelled right after being fired, generator steps that pause with sleep(0) or call() an event, optionally the same root event objects fired a second time after everything drained; plus enumerated chains of 40..1500 (thorough 4000) links; under '
             'tick() and run(); non-trivial = a complete-requesting event whose closure has >=3 fired events including an '
             'abnormal member (cancelled, stopped, raising, or fired from a generator step); distinct = spec hash')
     assumptions = ('ghost causality = the spec tree (a child belongs to the event whose handler fired it)',
@@ -129,6 +134,7 @@ class C05(Prop):
         return st.fixed_dictionaries({
             'driver': st.sampled_from(['tick', 'run']),
             'xfire': st.sampled_from([False, False, True]),
+            'refire': st.sampled_from([False, False, True]),
             'roots': st.lists(e, min_size=1, max_size=3),
         }).map(_number)
 
@@ -226,19 +232,29 @@ class C05(Prop):
 
         exhausted = False
         escaped = None
+        phases = []
+        roots = [make(es) for es in spec['roots']]
         with driver.captured_stderr() as err:
             try:
-                for es in spec['roots']:
-                    log.append(('fired', es['id'], 'root'))
-                    app.fire(make(es))
-                if spec['driver'] == 'tick':
-                    exhausted = driver.settle(app, 400) < 0
-                else:
-                    idle = driver.run_to_quiescence(app, max_iter=400)
-                    exhausted = idle.exhausted or idle.blocked > 0
+                # spec flag "refire": once everything has drained the very same root event objects are fired again
+                # (what a persistent Timer does with its event); the second firing is owed the same guarantees
+                for phase in range(2 if _refirable(spec) else 1):
+                    for es, e in zip(spec['roots'], roots):
+                        log.append(('fired', es['id'], 'root'))
+                        app.fire(e)
+                    if spec['driver'] == 'tick':
+                        exhausted = driver.settle(app, 400) < 0
+                    else:
+                        idle = driver.run_to_quiescence(app, max_iter=400)
+                        exhausted = idle.exhausted or idle.blocked > 0
+                    phases.append(list(log))
+                    del log[:]
+                    if exhausted:
+                        break
             except BaseException as e:  # noqa
                 escaped = repr(e)
-        return log, exhausted, escaped, err.getvalue()
+                phases.append(list(log))
+        return phases, exhausted, escaped, err.getvalue()
 
     # ------------------------------------------------------------------
     def _deep(self, spec):
@@ -311,7 +327,19 @@ class C05(Prop):
     def execute(self, spec):
         if 'deep' in spec:
             return self._deep(spec)
-        log, exhausted, escaped, errout = self._run_real(spec)
+        phases, exhausted, escaped, errout = self._run_real(spec)
+        res = None
+        for n, log in enumerate(phases):
+            res = self._judge(spec, log, exhausted, escaped, errout)
+            if not res.ok:
+                if n:
+                    res.msg = '[second firing of the same root event objects] ' + res.msg
+                return res
+        if len(phases) > 1:
+            res.classes = tuple(sorted(set(res.classes) | {'root-objects-fired-again'}))
+        return res
+
+    def _judge(self, spec, log, exhausted, escaped, errout):
         drv = spec['driver']
 
         def bad(clause, msg):
